@@ -456,6 +456,7 @@ static int run_req(char *req) {
     if (nf < 3) return 0;
     request_reset(r);
     r->http_status = 0;
+    con.proto_default_port = 80;    /* (mod_extforward proto=https sets it for the connection) */
     r->conditional_is_valid = (1 << COMP_SERVER_SOCKET) | (1 << COMP_HTTP_REMOTE_IP);
     config_cond_cache_reset(r);
     size_t pn; unsigned char *peer = ltv_unhex(f[1], &pn);
